@@ -18,4 +18,10 @@ ok, out, _ = vlib.harness_build()
 print("harness build:", ok)
 if not ok:
     print(out); sys.exit(1)
+sys.path.insert(0, "/verif/py/props")
+import c16
+ok, out = c16.translator_build()
+print("translator build:", ok)
+if not ok:
+    print(out); sys.exit(1)
 PY
